@@ -56,6 +56,10 @@ class SigDirector:
         for spec in c["classes"]:
             base = self.owner_classes[spec["base"]] if spec["base"] is not None else object
             ns: dict[str, Any] = {name: Signal(self.evcls[k]) for name, k in spec["signals"].items()}
+            if spec.get("falsy"):
+                # an owner whose truth value is False (an empty container, say) is an instance like any other
+                ns["__bool__"] = lambda a: False
+                ns["__len__"] = lambda a: 0
             if spec.get("eq"):
                 ns["__eq__"] = lambda a, b: isinstance(b, type(a)) and a.v == b.v
                 ns["__hash__"] = lambda a: hash(a.v)
